@@ -403,3 +403,35 @@ Proof.
   intros f Hf. rewrite init_refines_spec in Hf. inversion Hf; subst f.
   exists (spec_parse (print_forest s (spec_parse s))). split; [apply init_refines_spec | apply print_reparse].
 Qed.
+
+(* ---------- printing in ANY form whose tag texts are well formed ---------- *)
+
+(* replace every tag text by its rendering (short form, long form, ...) *)
+Fixpoint map_sh (r : str -> str) (x : shape) : shape :=
+  match x with
+  | STag t => STag (r t)
+  | SGroup ch => SGroup (map (map_sh r) ch)
+  end.
+
+Lemma wf_map_sh (r : str -> str) :
+  (forall t, tagbody t -> tagbody (r t)) -> forall x, wf x -> wf (map_sh r x).
+Proof.
+  intros Hr. apply (shape_ind2 (fun x => wf x -> wf (map_sh r x))).
+  - intros t Hw. inversion Hw; subst. constructor. apply Hr. assumption.
+  - intros ch IH Hw. inversion Hw as [|? Hch]; subst. cbn [map_sh]. constructor.
+    apply Forall_forall. intros y Hy. apply in_map_iff in Hy. destruct Hy as (x & <- & Hx).
+    rewrite Forall_forall in IH, Hch. apply IH; auto.
+Qed.
+
+(* Printing the tree of ANY text with every tag rendered by [r] (a rendering that
+   yields non-empty, delimiter-free, trimmed texts -- e.g. the short or the long
+   form, see C03) and re-parsing gives the same nesting with the rendered tags. *)
+Theorem render_reparse (s : str) (r : str -> str) :
+  (forall t, tagbody t -> tagbody (r t)) ->
+  let l := map (map_sh r) (parse_sh s) in
+  parse_sh (pr_list l) = l.
+Proof.
+  intros Hr. cbv zeta. apply parse_pr.
+  apply Forall_forall. intros y Hy. apply in_map_iff in Hy. destruct Hy as (x & <- & Hx).
+  apply wf_map_sh; [exact Hr|]. pose proof (parse_sh_wf s) as Hw. rewrite Forall_forall in Hw. auto.
+Qed.
